@@ -266,10 +266,14 @@ pub fn run(ctx: &Ctx) -> (Stats, Spec) {
     let wk_iters = ctx.tier.pick(3_000u64, 60_000u64);
     let parts = with_stderr_gagged(|| util::par_jobs(16, |job| super::weak::weak_hash_job(ctx, "C20", job, wk_iters)));
     st.merge(crate::report::merge_all(parts));
+    let wide_iters = ctx.tier.pick(400u64, 8_000u64);
+    let parts = with_stderr_gagged(|| util::par_jobs(16, |job| super::wide::wide_job(ctx, "C20", job, wide_iters)));
+    st.merge(crate::report::merge_all(parts));
     let spec = Spec {
-        rule: "every Boolean function over <= 4 variables (two label families) x {True, False, Any}, random functions over 5-8 sparse labels biased towards forced choices; CLI: generated formulas through `rsbdd -c <filter spelling> [-f t|f] -t` (the display filter must not change the direction). distinct = (table, filter, family) resp. (text, filter); non-trivial = filter != Any and at least one choice actually dropped (result != f).".into(),
+        rule: "every Boolean function over <= 4 variables (two label families) x {True, False, Any}, random functions over 5-8 sparse labels biased towards forced choices; CLI: generated formulas through `rsbdd -c <filter spelling> [-f t|f] -t` (the display filter must not change the direction). distinct = (table, filter, family) resp. (text, filter); non-trivial = filter != Any and at least one choice actually dropped (result != f). MANY VARIABLES: the same judgement on environments with 65-200 variables (more than a machine word of them), where operands are random DNFs and results are compared pointwise on 48 sampled assignments per case (biased towards the operands' cubes) and walked for order / reduction.".into(),
         assumptions: vec!["the library's 'omitted choice' diagnostics on stderr are ignored (fd 2 is silenced during the in-process part)".into()],
         floors: vec![
+            ("many_variable_cases".into(), 1_000, "environments with more than 64 variables never exercised".into()),
             ("weak_hash_symbol_calls".into(), 2_000, "environment over a constant-hash symbol type never exercised".into()),
             ("filter_True".into(), 60_000, "filter True never exercised".into()),
             ("filter_False".into(), 60_000, "filter False never exercised".into()),
@@ -283,6 +287,10 @@ pub fn run(ctx: &Ctx) -> (Stats, Spec) {
 }
 
 pub fn replay(ctx: &Ctx, _monitor: &str, case: &Value, st: &mut Stats) {
+    if case.get("kind").and_then(|k| k.as_str()) == Some("wide") {
+        super::wide::replay_wide(ctx, "C20", case, st);
+        return;
+    }
     if case.get("kind").and_then(|k| k.as_str()) == Some("weak-hash") {
         let job = case.get("job").and_then(|j| j.as_u64()).unwrap_or(0) as usize;
         let mut c2 = ctx.clone();
